@@ -19,6 +19,8 @@ def conds_for(progs, tier, fn="verdict", twins=True):
     out = []
     for p in progs:
         env = {"H_PROG": str(p), "H_R2": "2" if q else "3"}
+        if q and p == 11:
+            env["H_REACH_TRUE"] = "0"  # needs two values in the second record: the twin asks for a violated tree instead
         if p == 9:
             twin = None  # constant-true program ('no match = nothing to violate')
         else:
